@@ -51,6 +51,7 @@ def run : Runner
     -- after fix e199915 the bytes constructor caches exactly the consumed prefix = wire serialisation
     let foreign ← if ctor == "msgbytesbad" || ctor == "raw" then bytes? _trailing else some []
     let s0 := if ctor == "msgbytesbad" || ctor == "raw" then initBytes foreign
+              else if ctor == "msgbytesempty" then initBytes []
               else if ctor == "bytes" || ctor == "msgbytes" then initBytes W.ser else initMsg
     let (_, _, toks) := calls.foldl (fun (acc : St × Names × List String) c =>
         let (s, r) := step W acc.1 c
